@@ -207,19 +207,30 @@ def run_batch(ctx):
                 ctx.count('stopped-on-time-budget')
                 break
             check_pair(ctx, 'term', n, m, '~', 'lalr', 'contextual', ks_for(n, m, rng))
-        for _ in range(24):
-            if not ctx.time_left():
-                break
-            n = rng.randint(0, 300)
-            m = n + rng.choice([0, rng.randint(0, 8), rng.randint(0, 100)])
-            if m == 0:
-                continue
-            kind = rng.choice(KINDS)
-            parser, lexer = rng.choice([('lalr', 'contextual'), ('earley', 'basic'), ('lalr', 'basic')])
-            check_pair(ctx, kind, n, m, '~', parser, lexer, ks_for(n, m, rng))
         for op in '?*+':
             for kind in KINDS:
                 check_pair(ctx, kind, 0, 0, op, 'lalr', 'contextual', [0, 1, 2, 3, 7, 50])
+        # every small pair for every kind of x and every engine
+        ENG = [('lalr', 'contextual'), ('earley', 'basic'), ('lalr', 'basic'), ('earley', 'dynamic')]
+        small = [(kind, n, m, e) for kind in KINDS for n in range(0, 9) for m in range(max(n, 1), 9) for e in ENG]
+        for kind, n, m, (parser, lexer) in small[ctx.batch::ctx.nbatch]:
+            if not ctx.time_left(0.6):
+                ctx.count('small-pairs-stopped-on-their-share-of-the-time-budget')
+                break
+            check_pair(ctx, kind, n, m, '~', parser, lexer, ks_for(n, m, rng))
+            ctx.count('exhaustive-small-pairs')
+        # the rest of the budget: random bounds up to 600 (several levels of factored helper rules), every kind and engine
+        while ctx.time_left():
+            n = rng.choice([rng.randint(0, 60), rng.randint(0, 300), rng.randint(0, 600)])
+            m = n + rng.choice([0, rng.randint(0, 8), rng.randint(0, 100), rng.randint(0, 400)])
+            if m == 0:
+                continue
+            kind = rng.choice(KINDS)
+            parser, lexer = rng.choice(ENG)
+            if m > 130 and (parser, lexer) == ('earley', 'dynamic'):
+                lexer = 'basic'
+            check_pair(ctx, kind, n, m, '~', parser, lexer, ks_for(n, m, rng))
+            ctx.count('random-large-pairs')
     ctx.sample({'grammar': grammar('term', '~3..51')[0], 'k': [1, 2, 3, 4, 5, 27, 49, 50, 51, 52, 53]})
 
 
